@@ -10,7 +10,8 @@ dir="$VERIF/seeded/$id"
 if [ -n "$(git -C /repo status --porcelain)" ]; then echo "/repo is not clean"; exit 2; fi
 checks="$*"
 [ -z "$checks" ] && checks=$(python3 -c "import json;print(json.load(open('$dir/meta.json'))['property'])")
-git -C /repo apply "$dir/patch.diff" || { echo "patch does not apply"; exit 2; }
+if grep -q '"status": "superseded' "$dir/meta.json"; then echo "SEEDED $id: SUPERSEDED (see meta.json)"; exit 0; fi
+git -C /repo apply "$dir/patch.diff" || { echo "SEEDED $id: patch does not apply"; exit 2; }
 caught=1
 for c in $checks; do
   out=$(COVERIF_NOEVIDENCE=1 "$VERIF/bin/covr" "$c" --tier "${TIER:-quick}" 2>&1); code=$?
